@@ -43,9 +43,9 @@ def plan_C01(tier):
     a = Alloc()
     q = tier == "quick"
     jobs = [
-        a.job("rel", 32000 if q else 640000),
-        a.job("chk", 8000 if q else 160000),
-        a.job("asan", 3000 if q else 40000, timeout=900),
+        a.job("rel", 64000 if q else 960000),
+        a.job("chk", 16000 if q else 240000),
+        a.job("asan", 4000 if q else 40000, timeout=900),
     ]
     if not q:
         jobs.append(a.job("miri", 160, shards=16, params={"max_order": 9, "max_len": 12}, timeout=1800))
@@ -63,9 +63,9 @@ def plan_C02(tier):
     a = Alloc()
     q = tier == "quick"
     jobs = [
-        a.job("rel", 24000 if q else 480000),
-        a.job("chk", 6000 if q else 120000),
-        a.job("asan", 3000 if q else 40000, timeout=900),
+        a.job("rel", 96000 if q else 960000),
+        a.job("chk", 24000 if q else 240000),
+        a.job("asan", 6000 if q else 60000, timeout=900),
     ]
     if not q:
         jobs.append(a.job("miri", 96, shards=16, params={"max_order": 7, "walks": 6}, timeout=1800))
@@ -82,9 +82,9 @@ def plan_C03(tier):
     a = Alloc()
     q = tier == "quick"
     jobs = [
-        a.job("rel", 120000 if q else 2400000),
-        a.job("chk", 30000 if q else 600000),
-        a.job("asan", 10000 if q else 100000, timeout=900),
+        a.job("rel", 480000 if q else 4800000),
+        a.job("chk", 120000 if q else 1200000),
+        a.job("asan", 30000 if q else 300000, timeout=900),
     ]
     if not q:
         jobs.append(a.job("miri", 160, shards=16, params={"max_order": 7}, timeout=1800))
@@ -103,9 +103,9 @@ def plan_C04(tier):
     a = Alloc()
     q = tier == "quick"
     jobs = [
-        a.job("rel", 160000 if q else 3200000),
-        a.job("chk", 40000 if q else 800000),
-        a.job("asan", 10000 if q else 100000, timeout=900),
+        a.job("rel", 480000 if q else 4800000),
+        a.job("chk", 120000 if q else 1200000),
+        a.job("asan", 30000 if q else 300000, timeout=900),
     ]
     if not q:
         jobs.append(a.job("miri", 160, shards=16, params={"max_order": 7}, timeout=1800))
@@ -122,9 +122,9 @@ def plan_C05(tier):
     a = Alloc()
     q = tier == "quick"
     jobs = [
-        a.job("rel", 80000 if q else 1600000),
-        a.job("chk", 20000 if q else 400000),
-        a.job("asan", 6000 if q else 60000, timeout=900),
+        a.job("rel", 320000 if q else 3200000),
+        a.job("chk", 80000 if q else 800000),
+        a.job("asan", 20000 if q else 200000, timeout=900),
     ]
     if not q:
         jobs.append(a.job("miri", 128, shards=16, params={"max_order": 6}, timeout=1800))
@@ -142,9 +142,9 @@ def plan_C06(tier):
     a = Alloc()
     q = tier == "quick"
     jobs = [
-        a.job("rel", 160000 if q else 3200000),
-        a.job("chk", 40000 if q else 800000),
-        a.job("asan", 10000 if q else 100000, timeout=900),
+        a.job("rel", 480000 if q else 4800000),
+        a.job("chk", 120000 if q else 1200000),
+        a.job("asan", 30000 if q else 300000, timeout=900),
     ]
     if not q:
         jobs.append(a.job("miri", 160, shards=16, params={"max_order": 7}, timeout=1800))
@@ -162,7 +162,7 @@ def std_jobs(tier, rel, chk, asan, miri=0, miri_params=None, params=None, cpus_s
     """rel/chk/asan(/miri) jobs with quick sizes; thorough = 20x (miri 10x)."""
     a = Alloc()
     q = tier == "quick"
-    k = 1 if q else 20
+    k = 1 if q else 10
     jobs = []
     base = dict(params or {})
     if cpus_sweep:
@@ -188,7 +188,7 @@ def std_jobs(tier, rel, chk, asan, miri=0, miri_params=None, params=None, cpus_s
 
 
 def plan_C07(tier):
-    jobs, a = std_jobs(tier, 120000, 30000, 10000)
+    jobs, a = std_jobs(tier, 360000, 90000, 30000)
     if tier != "quick":
         jobs.append(a.job("miri", 200, shards=16, params={"max_order": 6}, timeout=1800))
     return dict(
@@ -202,7 +202,7 @@ def plan_C07(tier):
 
 
 def plan_C08(tier):
-    jobs, a = std_jobs(tier, 80000, 20000, 8000)
+    jobs, a = std_jobs(tier, 240000, 60000, 24000)
     if tier != "quick":
         jobs.append(a.job("miri", 200, shards=16, params={"max_order": 6}, timeout=1800))
     return dict(
@@ -231,9 +231,9 @@ def plan_C10(tier):
     a = Alloc()
     q = tier == "quick"
     jobs = [
-        a.job("rel", 40000 if q else 400000),
-        a.job("chk", 10000 if q else 100000),
-        a.job("asan", 6000 if q else 40000, timeout=1200),
+        a.job("rel", 80000 if q else 800000),
+        a.job("chk", 20000 if q else 200000),
+        a.job("asan", 8000 if q else 60000, timeout=1200),
     ]
     if not q:
         jobs.append(dict(engine="rel", lo=0, hi=1 << 20, shard=1 << 16, params={"mode": "ex5"}))
@@ -250,7 +250,7 @@ def plan_C10(tier):
 
 
 def plan_C11(tier):
-    jobs, a = std_jobs(tier, 12000, 3000, 3000, miri=48, miri_params={"max_order": 6}, cpus_sweep=[1, 2, 3, 5, 8, 16])
+    jobs, a = std_jobs(tier, 12000, 3000, 3000, miri=32, miri_params={"max_order": 5}, cpus_sweep=[1, 2, 3, 5, 8, 16])
     if tier != "quick":
         jobs.append(a.job("tsan", 1500, shards=8, params={"max_order": 24, "delay": 7}, timeout=1800))
     return dict(
@@ -310,7 +310,7 @@ def plan_C13(tier):
     )
 
 
-C14_CASES = 7 * 132 + 147 + 3 + 13
+C14_CASES = 7 * 136 + 147 + 3 + 13
 
 
 def plan_C14(tier):
@@ -333,7 +333,7 @@ def plan_C14(tier):
         what="closed-form comparison, exhaustive for the stated parameter ranges; tiling monitor",
         min_distinct=900,
         exhaustive=True,
-        min_feats={"inadmissible": 13, "complete": 132, "wheel": 132, "biclique": 147},
+        min_feats={"inadmissible": 13, "complete": 136, "wheel": 136, "biclique": 147},
     )
 
 
@@ -377,12 +377,12 @@ def plan_C15(tier):
 
 
 def plan_C16(tier):
-    jobs, a = std_jobs(tier, 40000, 10000, 4000)
+    jobs, a = std_jobs(tier, 120000, 30000, 10000)
     if tier != "quick":
         jobs.append(a.job("miri", 96, shards=16, params={"max_order": 6}, timeout=1800))
     return dict(
         jobs=jobs,
-        rule="case = (digraph of 18 families, order 1-40, often with an isolated top vertex; source type of 4): all 4 targets from that source observed against the model, compared with direct construction and converted back (round trip), a chain of 2-4 conversions, both weighted targets (all weights 1), "
+        rule="case = (digraph of 18 families, order 1-40 (rarely up to 130), often with an isolated top vertex; source type of 4): all 4 targets from that source observed against the model, compared with direct construction and converted back (round trip), a chain of 2-4 conversions, both weighted targets (all weights 1), "
         "and for half of the cases the iterator builders with valid rows/arcs (duplicates, shuffled) and invalid ones (self-loop, outside head, empty where documented) that must panic; distinct = hash of (source type, V, A); non-trivial = at least 2 arcs and an isolated top vertex",
         what="reference-model comparison",
         min_distinct=100,
@@ -413,7 +413,7 @@ def plan_C17(tier):
 
 
 def plan_C18(tier):
-    jobs, a = std_jobs(tier, 200000, 50000, 10000)
+    jobs, a = std_jobs(tier, 600000, 150000, 30000)
     if tier != "quick":
         jobs.append(a.job("miri", 160, shards=16, params={"max_order": 5}, timeout=1800))
     return dict(
@@ -435,7 +435,7 @@ def plan_C19(tier):
         dict(engine="rel", lo=0, hi=n_ex, shard=-(-n_ex // 16), params=par),
         dict(engine="chk", lo=0, hi=ex5, shard=-(-ex5 // 16), params=par),
         dict(engine="asan", lo=0, hi=ex5, shard=-(-ex5 // 16), params=par, timeout=1200),
-        dict(engine="rel", lo=n_ex, hi=n_ex + (20000 if q else 400000), shard=(20000 if q else 400000) // 16, params=par),
+        dict(engine="rel", lo=n_ex, hi=n_ex + (100000 if q else 400000), shard=(100000 if q else 400000) // 16, params=par),
         dict(engine="asan", lo=n_ex + 400000, hi=n_ex + 400000 + (2000 if q else 20000), shard=(2000 if q else 20000) // 16, params=par, timeout=1200),
     ]
     if not q:
@@ -453,7 +453,7 @@ def plan_C19(tier):
 
 
 def plan_C20(tier):
-    jobs, a = std_jobs(tier, 60000, 15000, 6000)
+    jobs, a = std_jobs(tier, 120000, 30000, 8000)
     if tier != "quick":
         jobs.append(a.job("miri", 96, shards=16, params={"max_order": 6}, timeout=1800))
     return dict(
